@@ -331,6 +331,7 @@ static std::string rand_file(Rng &r) {
     static const char *more[] = {"/lib/x86_64-linux-gnu/libfoo.so.1", "#", "# plain comment", "  ", "\t", LIBPATH "  ", LIBPATH "\t# c", LIBPATH ".1", "/x" LIBPATH, LIBPATH "x", " " LIBPATH, "/lib/foreign.so # libsnoopy.so is great",
         "/lib/b.so " LIBPATH, "/lib/a.so:/lib/b.so", "/usr/lib/libsnoopy.so # other", "libfakeroot.so", LIBPATH "#nospace", "/lib/d.so\t/lib/e.so", "#" LIBPATH,
         "libsnoopy.so", "libsnoopy.so # bare soname, found through the library path", "libsnoopy.so.2",   // entries may be bare sonames
+        "/simroot/lib/libsnoopy-so", "/simroot/lib/libsnoopy_so # helper", "/simroot/lib/libsnoopyXso",   // the path with another character where its dot is
         LIBPATH LIBPATH, LIBPATH LIBPATH " # twice, back to back", LIBPATH " \xc3\xa9toile.so", LIBPATH "\t\xe9.so /lib/z.so", "\xc3\xa9.so " LIBPATH, LIBPATH " \x0b/lib/v.so"};   // the path glued to itself; neighbours that start with bytes >= 0x80 or odd blanks
     std::string s; int n = (int)r.range(0, 8);
     // a file larger than one or two stdio buffers: many entries of other software around the generated lines
@@ -338,7 +339,8 @@ static std::string rand_file(Rng &r) {
     auto big = [&]() { int k = (int)r.range(200, 700); for (int j = 0; j < k; j++) s += (j % 7 == 3 ? "# vendor entry " : "/opt/vendor/lib/libhook-") + std::to_string(j) + (j % 7 == 3 ? "" : ".so") + "\n"; };
     for (int i = 0; i < n; i++) {
         if (i == big_at) big();
-        std::string l = r.chance(1, 2) ? ALPHA[r.below(9)] : more[r.below(28)];
+        std::string l = r.chance(1, 2) ? ALPHA[r.below(9)] : more[r.below(31)];
+        if (r.chance(1, 25)) l = std::string(LIBPATH) + (r.chance(1, 2) ? " # " : "\t#") + std::string((size_t)r.range(3900, 9000), 'c');   // an entry with a very long trailing comment
         if (r.chance(1, 12)) l += "\r";
         s += l; if (i + 1 < n || r.chance(4, 5)) s += "\n";
     }
